@@ -1,8 +1,25 @@
 (* C14 — Routes are shortest paths.
    Part 1: the certified checker that is evaluated (extracted) on the netlist the REAL floogen emitted
    is sound for the semantic statement C14_on over the hardware model Hw.v. *)
-From FV Require Import Base RouteMap Netlist Hw Check CheckProofs.
+From FV Require Import Base RouteMap Graph Netlist Hw Check CheckProofs Desc Compile Routing Emit PathProofs ModelProofs.
 
 Theorem C14_checker_sound : forall n, chk_C14 n = [] -> C14_on n.
 Proof. exact chk_C14_sound. Qed.
 Print Assumptions C14_checker_sound.
+
+(* Part 2: universal theorem over the generator model (compiled level): following the emitted ID
+   tables from a router towards interface t IS following the shortest-path oracle's next hops, so the
+   number of nodes visited equals the length of a shortest path -- for every oracle satisfying the
+   shortest-path contract, every description and size. *)
+Theorem C14_model_tables_shortest :
+  forall (sp : oracle) (c : compiled) (ri : rinfo) (t : cni) (id : Z),
+    d_algo (c_desc c) = ID -> gen_routing_info sp c = Ok ri -> In t (c_nis c) -> id_num (cn_id t) = Ok id ->
+    (forall s p, sp (c_graph c) s (cn_name t) = Some p -> path_to_t (g_edge c) (cn_name t) p s) ->
+    (forall s p q, sp (c_graph c) s (cn_name t) = Some p -> path_to_t (g_edge c) (cn_name t) q s -> (length p <= length q)%nat) ->
+    (forall s q, path_to_t (g_edge c) (cn_name t) q s -> sp (c_graph c) s (cn_name t) <> None) ->
+    NoDup (map cr_name (c_rts c)) ->
+    (forall u p, is_router c u -> sp (c_graph c) u (cn_name t) = Some p -> forall x, In x (removelast p) -> is_router c x) ->
+    forall k u p, (is_router c u \/ u = cn_name t) -> sp (c_graph c) u (cn_name t) = Some p -> length p = S k ->
+      cwalk k c ri (cn_name t) id u = follow (fun x => sp (c_graph c) x (cn_name t)) k u.
+Proof. exact cwalk_is_follow. Qed.
+Print Assumptions C14_model_tables_shortest.
